@@ -9,8 +9,9 @@ from .mirutil import defuse, root_place, deep_root
 LEN_CALLS = ("slice::<impl [T]>::len", "vec::Vec::len", "str::<impl str>::len", "string::String::len", "smallvec::SmallVec::len")
 
 
-def term_of(body, op, depth=0):
-    """Returns ('c', n) | ('len', arg_local) | ('op', name, a, b) | ('leaf', text)."""
+def term_of(body, op, depth=0, variables=None):
+    """Returns ('c', n) | ('len', arg_local) | ('var', name) | ('op', name, a, b) | ('cast', bits, t) | ('leaf', text).
+    `variables` maps locals to variable names (the term is then a function of those variables)."""
     if depth > 24:
         return ("leaf", "depth")
     if op.get("k") == "const":
@@ -25,9 +26,11 @@ def term_of(body, op, depth=0):
         d = du.single_def(l)
         if d and d[0] == "stmt" and d[3]["rv"]["k"] == "binop" and d[3]["rv"]["op"].endswith("WithOverflow"):
             rv = d[3]["rv"]
-            return ("op", rv["op"][:-len("WithOverflow")], term_of(body, rv["a"], depth + 1), term_of(body, rv["b"], depth + 1))
+            return ("op", rv["op"][:-len("WithOverflow")], term_of(body, rv["a"], depth + 1, variables), term_of(body, rv["b"], depth + 1, variables))
     if projs:
         return ("leaf", "projected place")
+    if variables and l in variables:
+        return ("var", variables[l])
     if 1 <= l <= body.arg_count:
         return ("leaf", "arg%d" % l)
     d = du.single_def(l)
@@ -42,17 +45,23 @@ def term_of(body, op, depth=0):
         return ("leaf", "call")
     rv = d[3]["rv"]
     if rv["k"] == "use":
-        return term_of(body, rv["op"], depth + 1)
+        return term_of(body, rv["op"], depth + 1, variables)
     if rv["k"] == "cast" and rv["cast"].startswith("IntToInt"):
-        return term_of(body, rv["op"], depth + 1)
-    if rv["k"] == "binop" and rv["op"] in ("Add", "Sub", "Mul", "Div", "Rem", "Shl", "Shr", "AddUnchecked", "SubUnchecked", "MulUnchecked"):
-        return ("op", rv["op"].replace("Unchecked", ""), term_of(body, rv["a"], depth + 1), term_of(body, rv["b"], depth + 1))
+        dty = body.local_ty(l)
+        inner = term_of(body, rv["op"], depth + 1, variables)
+        if dty.k == "int" and not dty.d.get("signed"):
+            return ("cast", dty.d["bits"], inner)
+        return inner
+    if rv["k"] == "binop" and rv["op"] in ("Add", "Sub", "Mul", "Div", "Rem", "Shl", "Shr", "BitAnd", "BitOr", "BitXor", "AddUnchecked", "SubUnchecked", "MulUnchecked", "ShlUnchecked", "ShrUnchecked"):
+        return ("op", rv["op"].replace("Unchecked", ""), term_of(body, rv["a"], depth + 1, variables), term_of(body, rv["b"], depth + 1, variables))
     return ("leaf", rv["k"])
 
 
 def leaves(t):
     if t[0] == "op":
         return leaves(t[2]) + leaves(t[3])
+    if t[0] == "cast":
+        return leaves(t[2])
     return [t]
 
 
@@ -62,6 +71,11 @@ def evaluate(t, lens):
         return t[1]
     if t[0] == "len":
         return lens.get(t[1])
+    if t[0] == "var":
+        return lens.get(t[1])
+    if t[0] == "cast":
+        v = evaluate(t[2], lens)
+        return None if v is None else v & ((1 << t[1]) - 1)
     if t[0] == "op":
         a, b = evaluate(t[2], lens), evaluate(t[3], lens)
         if a is None or b is None:
@@ -81,6 +95,12 @@ def evaluate(t, lens):
             return a << b
         if o == "Shr":
             return a >> b
+        if o == "BitAnd":
+            return a & b
+        if o == "BitOr":
+            return a | b
+        if o == "BitXor":
+            return a ^ b
     return None
 
 
@@ -89,7 +109,11 @@ def show(t):
         return str(t[1])
     if t[0] == "len":
         return "len(arg%d)" % t[1]
+    if t[0] == "var":
+        return str(t[1])
+    if t[0] == "cast":
+        return "(%s as u%d)" % (show(t[2]), t[1])
     if t[0] == "op":
-        sym = {"Add": "+", "Sub": "-", "Mul": "*", "Div": "/", "Rem": "%", "Shl": "<<", "Shr": ">>"}[t[1]]
+        sym = {"Add": "+", "Sub": "-", "Mul": "*", "Div": "/", "Rem": "%", "Shl": "<<", "Shr": ">>", "BitAnd": "&", "BitOr": "|", "BitXor": "^"}[t[1]]
         return "(%s %s %s)" % (show(t[2]), sym, show(t[3]))
     return "?%s" % t[1]
